@@ -108,8 +108,27 @@ def altloc_cases(tier):
                 yield dict(lattice=c, altloc=dict(occ=list(occ), moved_first=moved_first))
 
 
+def exact_cases(tier):
+    """Two-nucleotide structures in exactly aligned geometry - the second base straight above or below the first (no lateral offset, no tilt), so that
+    centroid vector and normals are exactly (anti)parallel and cosines are exactly +-1 - moved by general rotations, which make them inexact: the
+    annotation must not distinguish 'exactly 180 degrees' from '179.9999999'."""
+    motions = [("rigid", "ico", k) for k in range(1, 60, 2 if tier == "quick" else 1)] + [("rigid", "cube", k) for k in (5, 14)]
+    seen = set()
+    for c in fam.g1_stack("quick"):
+        if c["r"] != 0.0 or c["tilt"] != 0.0 or c["ph"] not in (0, 180):
+            continue
+        key = (c["l1"], c["l2"], c["rise"], c["flip"], c["ph"])
+        if key in seen:
+            continue
+        seen.add(key)
+        near = dict(c, idmode=0, namemode=0, thinmode=0)
+        for m in motions:
+            yield dict(near=near, crossed="exact:alignment:%s%s" % (c["l1"], c["l2"]), ts=[list(m)])
+
+
 def families(tier):
-    return [("transformations", lambda: cases(tier), 32), ("near-threshold", lambda: near_cases(tier), 64), ("altloc-format", lambda: altloc_cases(tier), 8)]
+    return [("transformations", lambda: cases(tier), 32), ("near-threshold", lambda: near_cases(tier), 64), ("exact-alignment", lambda: exact_cases(tier), 32),
+            ("altloc-format", lambda: altloc_cases(tier), 8)]
 
 
 # ---------------------------------------------------------------------------------------------
